@@ -95,3 +95,72 @@ theorem traceWeak_frame (c : Ctx) (t j : Nat) (hj : j ≠ t) :
 
 end Ctx
 end GcArena
+
+namespace GcArena
+namespace Ctx
+
+theorem trace_pre (c : Ctx) (t : Nat) : (c.trace t).pre = c.pre := by
+  unfold Ctx.trace
+  split
+  · simp
+  · split <;> (try rfl)
+    split <;> split <;> (try split) <;> simp
+
+theorem trace_rest (c : Ctx) (t : Nat) : (c.trace t).rest = c.rest := by
+  unfold Ctx.trace
+  split
+  · simp
+  · split <;> (try rfl)
+    split <;> split <;> (try split) <;> simp
+
+theorem trace_rnt (c : Ctx) (t : Nat) : (c.trace t).rootNeedsTrace = c.rootNeedsTrace := by
+  unfold Ctx.trace
+  split
+  · simp
+  · split <;> (try rfl)
+    split <;> split <;> (try split) <;> simp
+
+theorem traceWeak_pre (c : Ctx) (t : Nat) : (c.traceWeak t).pre = c.pre := by
+  unfold Ctx.traceWeak
+  split
+  · simp
+  · split <;> simp
+
+theorem traceWeak_rest (c : Ctx) (t : Nat) : (c.traceWeak t).rest = c.rest := by
+  unfold Ctx.traceWeak
+  split
+  · simp
+  · split <;> simp
+
+theorem traceWeak_rnt (c : Ctx) (t : Nat) : (c.traceWeak t).rootNeedsTrace = c.rootNeedsTrace := by
+  unfold Ctx.traceWeak
+  split
+  · simp
+  · split <;> simp
+
+/-- Allocation is unaffected by tracing. -/
+theorem trace_alloc (c : Ctx) (t j : Nat) :
+    (∃ o, (c.trace t).heap.get j = some o) ↔ ∃ o, c.heap.get j = some o := by
+  by_cases hj : j = t
+  · subst hj
+    unfold Ctx.trace
+    split
+    · simp
+    · rename_i ot hot
+      split <;> (try simp [hot])
+      split <;> split <;> (try split) <;> simp
+  · rw [trace_frame c t j hj]
+
+theorem traceWeak_alloc (c : Ctx) (t j : Nat) :
+    (∃ o, (c.traceWeak t).heap.get j = some o) ↔ ∃ o, c.heap.get j = some o := by
+  by_cases hj : j = t
+  · subst hj
+    unfold Ctx.traceWeak
+    split
+    · simp
+    · rename_i ot hot
+      split <;> simp [hot]
+  · rw [traceWeak_frame c t j hj]
+
+end Ctx
+end GcArena
